@@ -381,11 +381,47 @@ func ruleStateFormulas(c *Ctx, r *Report, prefix string) {
 		return
 	}
 	fi := func(n string) int { return fieldIndex(stT, n) }
+	// scalar fields the state derives from its Properties (posBitMask today) hold what state.Reset
+	// computes for these Properties; Reset is evaluated once per parameter triple, in tolerant mode
+	// (the probability tables it fills are not needed here)
+	resetFn := c.Func("lzma", "state.Reset")
+	derived := map[[3]int64]map[int]aval{}
+	derivedOf := func(lc, lp, pb int64) map[int]aval {
+		key := [3]int64{lc, lp, pb}
+		if d, ok := derived[key]; ok {
+			return d
+		}
+		d := map[int]aval{}
+		derived[key] = d
+		st, isSt := stT.Underlying().(*types.Struct)
+		if resetFn == nil || !isSt {
+			return d
+		}
+		in := NewInterp(c)
+		in.tolerant = true
+		in.MaxSteps = 400000
+		cl := in.newCellOf(stT)
+		it := types.Typ[types.Int]
+		in.storeCell(cl.field(fi("Properties")), aval{k: kStruct, typ: prT, flds: map[int]aval{
+			fieldIndex(prT, "LC"): aInt(lc, it), fieldIndex(prT, "LP"): aInt(lp, it), fieldIndex(prT, "PB"): aInt(pb, it)}}, prT)
+		in.call(resetFn, []aval{{k: kPtr, cell: cl}}, 0)
+		for i := 0; i < st.NumFields(); i++ {
+			if b, isB := st.Field(i).Type().Underlying().(*types.Basic); isB && b.Info()&types.IsInteger != 0 && i != fi("state") {
+				if v := cl.field(i).v; v.isInt() {
+					d[i] = v
+				}
+			}
+		}
+		return d
+	}
 	mk := func(in *Interp, lc, lp, pb, st int64) *cell {
 		cl := &cell{}
 		it := types.Typ[types.Int]
 		cl.field(fi("Properties")).fields = map[int]*cell{
 			fieldIndex(prT, "LC"): {v: aInt(lc, it)}, fieldIndex(prT, "LP"): {v: aInt(lp, it)}, fieldIndex(prT, "PB"): {v: aInt(pb, it)}}
+		for i, v := range derivedOf(lc, lp, pb) {
+			cl.field(i).v = v
+		}
 		cl.field(fi("state")).v = aInt(st, types.Typ[types.Uint32])
 		cl.field(fi("posBitMask")).v = aInt(1<<uint(pb)-1, types.Typ[types.Uint32])
 		return cl
